@@ -372,6 +372,13 @@ def choose(state, avail, rng, pol):
         if pol['explicit_index'] and rng.random() < 0.3:
             i = rng.choice(list(s.showdown_indices))
         k = rng.random()
+        if not all(s.hole_cards[i]) and pol.get('keep_unknown') and \
+                rng.random() < pol['keep_unknown']:
+            # unknown hole cards stay unknown: the hand is "shown" face down
+            # (anonymised histories do this)
+            a = ''.join(repr(c) if c else '??' for c in s.hole_cards[i])
+            if s.can_show_or_muck_hole_cards(a, i):
+                return op, [a, i]
         if not all(s.hole_cards[i]):
             # unknown hole cards: reveal them with fresh cards
             nun = sum(1 for c in s.hole_cards[i] if not c)
